@@ -412,13 +412,30 @@ fn tokens(t: &str) -> Vec<(usize, usize)> {
 /// First and last character code that has a CHARACTER property (via the crate's own parser; only
 /// used to pick replacement values, never to judge).
 fn char_range(text: &str) -> (i32, i32) {
-    catch(|| {
-        let (f, _) = tfm::pl::File::from_pl_source_code(text);
-        let lo = f.char_dimens.keys().next().map(|c| c.0 as i32).unwrap_or(0);
-        let hi = f.char_dimens.keys().last().map(|c| c.0 as i32).unwrap_or(0);
+    // own scan of `(CHARACTER <C x | O n | D n | H n>`: the subject is never called outside a worker
+    let toks: Vec<&str> = text.split(|c: char| c.is_whitespace() || c == '(' || c == ')').filter(|t| !t.is_empty()).collect();
+    let (mut lo, mut hi) = (i32::MAX, i32::MIN);
+    for w in toks.windows(3) {
+        if w[0] != "CHARACTER" {
+            continue;
+        }
+        let code = match w[1] {
+            "C" => w[2].bytes().next().map(|b| b as i32),
+            "O" => i32::from_str_radix(w[2], 8).ok(),
+            "D" => w[2].parse().ok(),
+            "H" => i32::from_str_radix(w[2], 16).ok(),
+            _ => None,
+        };
+        if let Some(c) = code.filter(|c| (0..256).contains(c)) {
+            lo = lo.min(c);
+            hi = hi.max(c);
+        }
+    }
+    if lo > hi {
+        (0, 0)
+    } else {
         (lo, hi)
-    })
-    .unwrap_or((0, 0))
+    }
 }
 
 struct TextFamily {
@@ -925,8 +942,9 @@ impl Families {
         let mut mut_starts = vec![0u64];
         // fonts whose property list is huge (originals/many-entrypoints.tfm: 2 kB of TFM, 750 kB of PL)
         // would make every mutation cost 0.1 s; they stay in the header, truncation and text families
-        let pl_small = |b: &[u8]| catch(|| tfm::algorithms::tfm_to_pl(b, 3, &fmt_default).ok().and_then(|o| o.pl_data.ok()).map(|p| p.len()).unwrap_or(0)).unwrap_or(0) <= 60_000;
-        for (i, (_, b)) in d.tfms.iter().enumerate().filter(|(_, x)| x.1.len() >= 24 && x.1.len() <= max_len && pl_small(&x.1)).take(n_small) {
+        // size of the property list recorded next to the font in the corpus (the subject is never called outside a worker)
+        let pl_small = |name: &str| d.pls.iter().find(|p| p.0 == name.replace(".tfm", ".plst")).map(|p| p.1.len()).unwrap_or(0) <= 60_000;
+        for (i, (_, b)) in d.tfms.iter().enumerate().filter(|(_, x)| x.1.len() >= 24 && x.1.len() <= max_len && pl_small(&x.0)).take(n_small) {
             let r = region_len(b);
             mut_files.push((i, r));
             mut_starts.push(mut_starts.last().unwrap() + r as u64 * 256);
@@ -939,7 +957,7 @@ impl Families {
             Fam { name: "tfm-header-words", bounds: format!("each of the twelve 16-bit words of the size table set to every value 0..65535, against {} base files ({})", self.hdr_bases.len(), if d.thorough { "every corpus font, synthetic minimal files, cmr10 truncated to 8/16/24/28 bytes" } else { "cmr10, cmex10, empty, many-ligatures, 5 synthetic minimal files, cmr10 truncated to 8/16/24/28 bytes" }), n: self.hdr_bases.len() as u64 * 12 * 65536 },
             Fam { name: "tfm-size-table-pairs", bounds: format!("every pair of byte positions inside the 24-byte size table set jointly to every pair of values, on {} synthetic minimal file(s)", self.pair_bases.len()), n: self.pair_bases.len() as u64 * 276 * 65536 },
             Fam { name: "tfm-truncations", bounds: format!("every truncation length of every corpus font ({} files)", d.tfms.len()), n: *self.trunc_starts.last().unwrap() },
-            Fam { name: "tfm-byte-mutations", bounds: format!("every 1-byte mutation (256 values) of every byte of the size table, header, char_info, dimension and lig/kern region of the {} smallest corpus fonts of 24..{} bytes (whose property list is at most 60 kB)", self.mut_files.len(), if d.thorough { 2600 } else { 420 }), n: *self.mut_starts.last().unwrap() },
+            Fam { name: "tfm-byte-mutations", bounds: format!("every 1-byte mutation (256 values) of every byte of the size table, header, char_info, dimension and lig/kern region of the {} smallest corpus fonts of 24..{} bytes (whose recorded property list is at most 60 kB)", self.mut_files.len(), if d.thorough { 2600 } else { 420 }), n: *self.mut_starts.last().unwrap() },
             Fam { name: "pl-token-faults", bounds: format!("every token of {} corpus property lists (files up to {} bytes, first {} tokens): deleted, duplicated, file truncated there, a parenthesis inserted, replaced by each of {} menu items (numbers 0 255 256 2047 2048 -1 77777777777, fix_word boundaries, prefixes, keywords, parentheses), numbers replaced by the character code below the first / above the last CHARACTER, property names replaced by each of {} other property names", self.text.files.len(), if d.thorough { 25000 } else { 1500 }, if d.thorough { 1500 } else { 400 }, REPL.len(), PROPS.len()), n: self.text.len() },
             Fam { name: "pl-templates", bounds: format!("{} property list templates with every combination of hole values from lattices of {} fix_word texts, {} character code forms and {} integers (boundaries of every documented range)", TEMPLATES.len(), FIX.len(), CODES.len(), INTS.len()), n: *template_sizes().last().unwrap() },
             Fam { name: "pl-short-texts", bounds: format!("every text of <= {} tokens over a {}-token vocabulary (parentheses, property names, prefixes, numbers)", self.vocab_len, VOCAB.len()), n: vcore::strings_upto(VOCAB.len() as u64, self.vocab_len) },
